@@ -125,6 +125,7 @@ func ZZ_C13_Race() {
 			vAtomic(func() { ev = append(ev, zzEvent{key: e.Key, val: e.Value, cause: e.Cause}) })
 		},
 	})
+	vDaemons() // periodicCleanUp waits on a ticker the manual clock never fires
 	jumps := []int64{3 << 30, int64(5 * time.Minute), int64(3 * time.Hour)}
 	jump := jumps[vChoice("jump", len(jumps))]
 	writeDone := int64(0)
